@@ -1,8 +1,158 @@
 import Genshi.Wire
-namespace Driver.C07
-open Genshi
+import Genshi.WireCore
+import Genshi.Model.ParseHtml
+import Genshi.Model.ParseXml
+/-
+  C07 driver verbs (see harness/props/c07.py):
 
-/-- stub: the model driver for C07 is not built yet -/
-def handle : List Sexp → Option Sexp := fun _ => none
+    C07 html ( read... ) ( item... ) ( ( value ( ok stripped ) | ( err Name ) )... )
+        read = ( T item... ) | B | ( F sName T|F )   (item verbs are upper-case on the wire: ST SE ET D C PI CR ER DECL RAISE)
+        item = ( st tag ( ( name value|N )... ) ) | ( se tag attrs ) | ( et tag ) | ( d text ) | ( c text )
+             | ( pi data ) | ( cr name ) | ( er name ) | ( decl text ) | ( raise Name T|F )
+    C07 xml ( read... ) ( item... )
+        read = ( t item... ) | ( f Name T|F ) | unenc
+        item = ( se name ( ( n v )... ) ) | ( ee name ) | ( cd text ) | ( xd version enc|N standalone )
+             | ( dt name sysid|N pubid|N T|F ) | ( ns pfx|N uri|N ) | ( ens pfx|N ) | sc | ec | ( pi t d )
+             | ( cm text ) | ( df text line col ) | ( xerr line col ) | ( raise Name T|F )
+    Every callback item carries the tokenizer's position as two trailing atoms: ( ST tag attrs line col ) ...
+    answer: ( ( ( event line col )... ) ok ) | ( ( ... ) ( parseError line col ) ) | ( ( ... ) ( propagate sName ) )
+            | unmodelled
+-/
+namespace Driver.C07
+open Genshi Genshi.Parse Genshi.Sexp
+
+def exc? (name : Str) : Sexp → Option PyExc
+  | .atom "T" => some (.exc name)
+  | .atom "F" => some (.base name)
+  | _ => none
+
+def hattrs? : Sexp → Option (List (Str × Option Str))
+  | .list xs => xs.mapM fun
+      | .list [.str n, v] => do let v ← optStr? v; pure (n, v)
+      | _ => none
+  | _ => none
+
+def pos? (l c : Sexp) : Option Pos := do let l ← l.toInt?; let c ← c.toInt?; pure (l, c)
+
+def htmlItem? : Sexp → Option (Item (HtmlCb × Pos))
+  | .list [.atom "ST", .str tag, a, l, c] => do let a ← hattrs? a; let p ← pos? l c; pure (.cb (.starttag tag a, p))
+  | .list [.atom "SE", .str tag, a, l, c] => do let a ← hattrs? a; let p ← pos? l c; pure (.cb (.startendtag tag a, p))
+  | .list [.atom "ET", .str tag, l, c] => do let p ← pos? l c; pure (.cb (.endtag tag, p))
+  | .list [.atom "D", .str s, l, c] => do let p ← pos? l c; pure (.cb (.data s, p))
+  | .list [.atom "C", .str s, l, c] => do let p ← pos? l c; pure (.cb (.comment s, p))
+  | .list [.atom "PI", .str s, l, c] => do let p ← pos? l c; pure (.cb (.pi s, p))
+  | .list [.atom "CR", .str s, l, c] => do let p ← pos? l c; pure (.cb (.charref s, p))
+  | .list [.atom "ER", .str s, l, c] => do let p ← pos? l c; pure (.cb (.entityref s, p))
+  | .list [.atom "DECL", .str s, l, c] => do let p ← pos? l c; pure (.cb (.decl s, p))
+  | .list [.atom "RAISE", .str n, b] => do let e ← exc? n b; pure (.raise e)
+  | _ => none
+
+def htmlRead? : Sexp → Option HtmlReadP
+  | .atom "B" => some .bytes
+  | .list (.atom "T" :: items) => do let l ← items.mapM htmlItem?; pure (.text l)
+  | .list [.atom "F", .str n, b] => do let e ← exc? n b; pure (.fail e)
+  | _ => none
+
+def stripRow? : Sexp → Option (Str × Except PyExc Str)
+  | .list [.str v, .list [.atom "ok", .str r]] => some (v, .ok r)
+  | .list [.str v, .list [.atom "err", .str n]] => some (v, .error (.exc n))
+  | _ => none
+
+def stripOf (tbl : List (Str × Except PyExc Str)) (v : Str) : Except PyExc Str :=
+  match tbl.find? (fun p => p.1 = v) with
+  | some p => p.2
+  | none => .error (.base "missing-strip-row".toList)
+
+def itemModelled : Item (HtmlCb × Pos) → Bool
+  | .cb (.charref n, _) => charrefModelled n
+  | _ => true
+
+def readModelled : HtmlReadP → Bool
+  | .text l => l.all itemModelled
+  | _ => true
+
+def raisedOut : Option Raised → Sexp
+  | none => .atom "ok"
+  | some (.parseError l c) => .list [.atom "parseError", ofInt l, ofInt c]
+  | some (.propagate n) => .list [.atom "propagate", .str n]
+
+def pevToSexp (e : PEvent) : Sexp := .list [e.1.toSexp, ofInt e.2.1, ofInt e.2.2]
+
+def answer (r : PStream × Option Raised) : Sexp := .list [.list (r.1.map pevToSexp), raisedOut r.2]
+
+def xattrs? : Sexp → Option (List (Str × Str))
+  | .list xs => xs.mapM fun
+      | .list [.str n, .str v] => some (n, v)
+      | _ => none
+  | _ => none
+
+def xmlItem? : Sexp → Option (Item (XmlCb × Pos))
+  | .list [.atom "SE", .str n, a, l, c] => do let a ← xattrs? a; let p ← pos? l c; pure (.cb (.startElement n a, p))
+  | .list [.atom "EE", .str n, l, c] => do let p ← pos? l c; pure (.cb (.endElement n, p))
+  | .list [.atom "CD", .str s, l, c] => do let p ← pos? l c; pure (.cb (.characterData s, p))
+  | .list [.atom "XD", .str v, e, s, l, c] => do
+      let e ← optStr? e; let s ← s.toInt?; let p ← pos? l c; pure (.cb (.xmlDecl v e s, p))
+  | .list [.atom "DT", .str n, s, pb, h, l, c] => do
+      let s ← optStr? s; let pb ← optStr? pb; let h ← h.toBool?; let p ← pos? l c
+      pure (.cb (.startDoctype n s pb h, p))
+  | .list [.atom "NS", pf, u, l, c] => do
+      let pf ← optStr? pf; let u ← optStr? u; let p ← pos? l c; pure (.cb (.startNs pf u, p))
+  | .list [.atom "ENS", pf, l, c] => do let pf ← optStr? pf; let p ← pos? l c; pure (.cb (.endNs pf, p))
+  | .list [.atom "SC", l, c] => do let p ← pos? l c; pure (.cb (.startCdata, p))
+  | .list [.atom "EC", l, c] => do let p ← pos? l c; pure (.cb (.endCdata, p))
+  | .list [.atom "PI", .str t, .str d, l, c] => do let p ← pos? l c; pure (.cb (.pi t d, p))
+  | .list [.atom "CM", .str s, l, c] => do let p ← pos? l c; pure (.cb (.comment s, p))
+  | .list [.atom "DF", .str s, l, c] => do let p ← pos? l c; pure (.cb (.default_ s p.1 p.2, p))
+  | .list [.atom "XERR", l, c] => do let l ← l.toInt?; let c ← c.toInt?; pure (.raise (.expat l c))
+  | .list [.atom "RAISE", .str n, b] => do let e ← exc? n b; pure (.raise e)
+  | _ => none
+
+def xmlRead? : Sexp → Option XmlReadP
+  | .atom "UNENC" => some .unencodable
+  | .list (.atom "T" :: items) => do let l ← items.mapM xmlItem?; pure (.chunk l)
+  | .list [.atom "F", .str n, b] => do let e ← exc? n b; pure (.fail e)
+  | _ => none
+
+def decl? : Sexp → Option (Option Str × Option Str)
+  | .list [p, u] => do let p ← optStr? p; let u ← optStr? u; pure (p, u)
+  | _ => none
+
+/-- document trees on the wire: ( E name attrs ( ( pfx|N uri|N )... ) ( node... ) ) | ( CH piece... ) |
+    ( CDS piece... ) | ( CM s ) | ( PI t d ) | ( XD v enc|N standalone ) | ( DT name sysid|N pubid|N T|F ) | ( IGN s line col ) -/
+partial def xnode? : Sexp → Option XNode
+  | .list [.atom "E", .str n, a, .list ds, .list ks] => do
+      let a ← xattrs? a; let ds ← ds.mapM decl?; let ks ← ks.mapM xnode?; pure (.elem n a ds ks)
+  | .list (.atom "CH" :: ps) => do let ps ← ps.mapM Sexp.toStr?; pure (.chars ps)
+  | .list (.atom "CDS" :: ps) => do let ps ← ps.mapM Sexp.toStr?; pure (.cdata ps)
+  | .list [.atom "CM", .str s] => some (.comment s)
+  | .list [.atom "PI", .str t, .str d] => some (.pi t d)
+  | .list [.atom "XD", .str v, e, s] => do let e ← optStr? e; let s ← s.toInt?; pure (.decl v e s)
+  | .list [.atom "DT", .str n, s, pb, h] => do
+      let s ← optStr? s; let pb ← optStr? pb; let h ← h.toBool?; pure (.doctype n s pb h)
+  | .list [.atom "IGN", .str s, l, c] => do let l ← l.toInt?; let c ← c.toInt?; pure (.ignorable s l c)
+  | _ => none
+
+def handle : List Sexp → Option Sexp
+  | [.atom "html", .list reads, .list close, .list tbl] => do
+      let reads ← reads.mapM htmlRead?
+      let close ← close.mapM htmlItem?
+      let tbl ← tbl.mapM stripRow?
+      if !(reads.all readModelled && close.all itemModelled) then pure (.atom "unmodelled") else
+      let env : Env := { strip := stripOf tbl, lower := asciiLower, void := Genshi.Gen.Output.parserEmptyElems }
+      pure (answer (htmlParseP env reads close))
+  | [.atom "xml", .list reads, .list close] => do
+      let reads ← reads.mapM xmlRead?
+      let close ← close.mapM xmlItem?
+      pure (answer (xmlParseP reads close))
+  | [.atom "xmltree", .list doc, .list items] => do
+      -- is the recorded sequence of handler calls the traversal of this forest (hypothesis of xml_layer_tree)?
+      let doc ← doc.mapM xnode?
+      let items ← items.mapM xmlItem?
+      pure (ofBool (wfList doc && decide (items.map (Item.map Prod.fst) = (callbacksList doc).map Item.cb)))
+  | [.atom "qname", .str s] => some (mkQName s).toSexp
+  | [.atom "coalesce", f, s] => do
+      let f ← f.toBool?; let s ← streamOfSexp? s; pure (streamToSexp (coalesceGo f none s))
+  | [.atom "linecount", .str s] => some (ofNat (lineCount s))
+  | _ => none
 
 end Driver.C07
